@@ -98,8 +98,9 @@ def check(run, repo, world):
 
     # ---- SetGroups --------------------------------------------------------
     m, fn, _ = world.func(MOD + ".SetGroups")
-    from ..normal import pull_tests_through_conversion
+    from ..normal import pull_tests_through_conversion, thread_none_sentinel
     fn = pull_tests_through_conversion(fn, world, MOD)
+    fn = thread_none_sentinel(fn, world, MOD)
     fn = normalise(fn, world, MOD, primitives=("QueryGroups",))
     S = MOD + ".SetGroups"
     scfg = gen_cfg(fn, S)
